@@ -11,6 +11,29 @@ def mul_uf(width):
     return _MUL[width]
 
 
+def factors(t, width):
+    """factors of a (nested) uninterpreted product"""
+    f = _MUL.get(width)
+    if f is not None and z3.is_app(t) and t.decl().eq(f):
+        return factors(t.arg(0), width) + factors(t.arg(1), width)
+    return [t]
+
+
+def ac_mul(width, terms):
+    """canonical form of an uninterpreted product: factors flattened and
+    sorted, folded to the left (multiplication is associative and commutative,
+    so every association denotes the same value)"""
+    fs = []
+    for t in terms:
+        fs += factors(z3.simplify(t), width)
+    fs.sort(key=lambda k: k.sexpr())
+    acc = fs[0]
+    f = mul_uf(width)
+    for k in fs[1:]:
+        acc = f(acc, k)
+    return acc
+
+
 def abstract_mul(t, cache=None):
     """replace every product of two non-constant bit-vectors by an
     uninterpreted function application MULw(x, y) (arguments ordered by term
@@ -31,11 +54,7 @@ def abstract_mul(t, cache=None):
         nonconst = [k for k in kids if not z3.is_bv_value(k)]
         if len(nonconst) >= 2:
             const = [k for k in kids if z3.is_bv_value(k)]
-            nonconst.sort(key=lambda k: k.sexpr())
-            acc = nonconst[0]
-            f = mul_uf(t.size())
-            for k in nonconst[1:]:
-                acc = f(acc, k)
+            acc = ac_mul(t.size(), nonconst)
             for c in const:
                 acc = acc * c
             r = acc
@@ -46,3 +65,81 @@ def abstract_mul(t, cache=None):
             r = t
     cache[key] = (t, r)
     return r
+
+
+_DIV, _REM = {}, {}
+
+
+def udiv_uf(width):
+    if width not in _DIV:
+        s = z3.BitVecSort(width)
+        _DIV[width] = z3.Function(f"UDIV{width}", s, s, s)
+    return _DIV[width]
+
+
+def urem_uf(width):
+    if width not in _REM:
+        s = z3.BitVecSort(width)
+        _REM[width] = z3.Function(f"UREM{width}", s, s, s)
+    return _REM[width]
+
+
+def narrow_axioms(formulas):
+    """facts linking the 32-bit uninterpreted operations to the 64-bit ones:
+    for every application OP32(x, y) in the formulas,
+    zext(OP32(x, y)) == OP64(zext x, zext y)   (true of unsigned / and %);
+    for MUL: extract_32(MUL64(zext x, zext y)) == MUL32(x, y)"""
+    seen, out = set(), []
+    pairs = []
+    if 32 in _DIV:
+        pairs.append((_DIV[32], udiv_uf(64), "z"))
+    if 32 in _REM:
+        pairs.append((_REM[32], urem_uf(64), "z"))
+    if 32 in _MUL:
+        pairs.append((_MUL[32], mul_uf(64), "m"))
+
+    def visit(t):
+        if t.get_id() in seen or not z3.is_app(t):
+            return
+        seen.add(t.get_id())
+        for f32, f64, how in pairs:
+            if t.decl().eq(f32):
+                x, y = t.arg(0), t.arg(1)
+                big = f64(z3.ZeroExt(32, x), z3.ZeroExt(32, y))
+                if how == "z":
+                    out.append(z3.ZeroExt(32, t) == big)
+                else:
+                    a, b = sorted((z3.simplify(z3.ZeroExt(32, x)), z3.simplify(z3.ZeroExt(32, y))),
+                                  key=lambda u: u.sexpr())
+                    out.append(t == z3.Extract(31, 0, f64(a, b)))
+        if 64 in _MUL and t.decl().eq(_MUL[64]):
+            # the low half of a product depends only on the low halves
+            lo = [z3.Extract(31, 0, t.arg(0)), z3.Extract(31, 0, t.arg(1))]
+            if not all(z3.is_bv_value(z3.simplify(x)) for x in lo):
+                out.append(z3.Extract(31, 0, t) == ac_mul(32, lo))
+        for c in t.children():
+            visit(c)
+    for f in formulas:
+        visit(f)
+    # commutativity / associativity instances for the uninterpreted products
+    import itertools
+    done = set()
+    for w, fn in list(_MUL.items()):
+        def walk(t):
+            if t.get_id() in done or not z3.is_app(t):
+                return
+            done.add(t.get_id())
+            if t.decl().eq(fn):
+                fs = factors(t, w)
+                if len(fs) <= 3:
+                    for perm in itertools.permutations(fs):
+                        acc = perm[0]
+                        for k in perm[1:]:
+                            acc = fn(acc, k)
+                        if not acc.eq(t):
+                            out.append(t == acc)
+            for c in t.children():
+                walk(c)
+        for f in formulas:
+            walk(f)
+    return out
